@@ -305,7 +305,7 @@ func runCase(c Case) (fail *hx.Failure) {
 		}
 		// commands meeting threads which execute statements: a state the
 		// repository's tests never issue any command in
-		key := fmt.Sprintf("spin|%d|%v", c.Spin.Threads, c.Spin.Clients)
+		key := fmt.Sprintf("spin|%d|%v|%v", c.Spin.Threads, c.Spin.NoBOE, c.Spin.Clients)
 		hx.E.Case(nlines > 0, key, "setup.spin")
 		hx.E.Sample(key, map[string]interface{}{"setup": "spin", "spin": c.Spin})
 		return runSpin(c)
